@@ -3215,7 +3215,14 @@ func (c *pipelineConnClient) reader(conn net.Conn, stopCh <-chan struct{}, chs *
 				return err
 			}
 		}
-		if err = w.resp.Read(br); err != nil {
+		// The response to a HEAD request has no body, whatever its Content-Length says.
+		skipBody := w.resp.SkipBody
+		if w.req.Header.IsHead() {
+			w.resp.SkipBody = true
+		}
+		err = w.resp.Read(br)
+		w.resp.SkipBody = skipBody
+		if err != nil {
 			w.err = err
 			w.done <- struct{}{}
 			return err
